@@ -389,7 +389,7 @@ fn run_case(seed: u64, idx: u64, _tier: Tier, out: &mut CaseOut) {
     }
     let inline_only = matches!(kind, Kind::H(_));
     let many = n > 4;
-    let items: Vec<Vec<Node>> = (0..n)
+    let mut items: Vec<Vec<Node>> = (0..n)
         .map(|_| {
             if many {
                 gen_item(&mut rng, 1, true)
@@ -398,6 +398,19 @@ fn run_case(seed: u64, idx: u64, _tier: Tier, out: &mut CaseOut) {
             }
         })
         .collect();
+    // an item may end with forced line breaks (its rendering then ends with an empty line)
+    if rng.chance(1, 6) {
+        let k = rng.below(items.len());
+        items[k].push(El::new("br").node());
+        items[k].push(El::new("br").node());
+        out.inc("items_ending_in_br_br");
+    }
+    // a completely empty <li> still takes its number (one number per item)
+    if matches!(kind, Kind::Ol(_) | Kind::Ul) && items.len() >= 2 && rng.chance(1, 6) {
+        let k = rng.below(items.len() - 1);
+        items[k] = Vec::new();
+        out.inc("lists_with_empty_item");
+    }
     if items.iter().any(|k| {
         ast::has_tag(k, "ul") || ast::has_tag(k, "ol") || ast::has_tag(k, "blockquote") || ast::has_tag(k, "dl")
     }) {
